@@ -893,3 +893,13 @@ class TransactionBodiesOnlyQueue(ScanCheck):
                     {'callers': str(helper_callers)}))
         out.append(('no_unclassified_table_method_called', not unclass_calls, {'calls': str(unclass_calls)[:300]}))
         return out
+
+
+@register
+class ParentPublishedAsCopy(_c02.IncrementParentVersion):
+    id = 'C03.parent_descriptor_is_published_as_a_copy'
+    prop = 'C03'
+    doc = ('_increment_parent_descriptor_version (C02.increment_parent_descriptor_version re-checked): what a descriptor '
+           'transaction publishes for the parent of a created / deleted child is a COPY of the stored parent (taken after '
+           'the version increment) - a later commit, or a holder of the transaction result, cannot change what was '
+           'published, nor the MDIB through it')
